@@ -40,7 +40,8 @@ def run(ctx):
     ctx.ht = ht
     guards(ctx, f)
     header_edit(ctx, ht, f)
-    check_footer(ctx, ht, 'C12.3', select=lambda g: g is f)
+    helpers = {f.qualname} | {q for q in G.reach(f) if P.functions[q].cls is f.cls}
+    check_footer(ctx, ht, 'C12.3', select=lambda g: g.qualname in helpers)
     ceilings(ctx, f)
     symbolic(ctx, f)
     checked_reads(ctx, f)
